@@ -4,18 +4,18 @@ OVERLAY = {"internal/rules/mechanisms/zz_verif_c11_test.go": "c11/c11_test.go",
            "internal/rules/mechanisms/zz_verif_c11_keys_test.go": "c11/c11_keys_test.go"}
 
 def _drift():
-    """layout drift report (never a verdict): on the first 150 cases of each stream, are the observed keys byte for byte the
+    """layout drift report (never a verdict): on the first 80 cases of each stream, are the observed keys byte for byte the
     ones of the modelled pre-image layout?  The check itself compares keys only up to renaming."""
     import os
     import vf
     res = {}
     for name, term in (("histories", "drift fx_now"), ("keys", "drift2 true true false")):
         try:
-            obs = vf.read_obs(os.path.join(vf.OUT, "C11", "obs_%s.jsonl" % name))[:150]
+            obs = vf.read_obs(os.path.join(vf.OUT, "C11", "obs_%s.jsonl" % name))[:80]
             if not obs:
                 res[name] = "no observations"
                 continue
-            rows, sh, ok, _ = vf.eval_cases("C11", "Run.Eval_C11", term, [o["coq"] for o in obs], shard_size=50)
+            rows, sh, ok, _ = vf.eval_cases("C11", "Run.Eval_C11", term, [o["coq"] for o in obs], shard_size=40)
             res[name] = {"cases": len(obs), "key_bytes_differ_from_modelled_layout": sum(1 for r in rows.values() if not r[0])} \
                 if ok == sh else "evaluation failed"
         except Exception as ex:  # a report only
@@ -39,7 +39,7 @@ P = {
     "streams": [{
         "name": "histories", "pkg": "./internal/rules/mechanisms", "test": "TestVerifC11",
         "overlay": OVERLAY, "eval_module": "Run.Eval_C11", "check_term": "check fx_now",
-        "n_quick": 800, "n_thorough": 8000, "shard": 56,
+        "n_quick": 600, "n_thorough": 6000, "shard": 44,
         "findings": {4: "C11-F4", 6: "C11-F6", 7: "C11-F7", 10: "C11-F10"},
     }, {
         "name": "keys", "pkg": "./internal/rules/mechanisms", "test": "TestVerifC11Keys",
